@@ -30,6 +30,7 @@ type Frame struct {
 	curBlk  *ssa.BasicBlock
 	rangeVis map[ssa.Value]string
 	rangeMap map[ssa.Value]*Val
+	rangeLen map[ssa.Value]Term
 	loopHead map[*ssa.BasicBlock]*loopInfo
 	top      bool
 	curLockArg ssa.Value
@@ -613,6 +614,7 @@ func (fr *Frame) run(entryReach Term, entrySt *State) {
 	fr.blockIn = map[*ssa.BasicBlock][]edgeIn{}
 	fr.rangeVis = map[ssa.Value]string{}
 	fr.rangeMap = map[ssa.Value]*Val{}
+	fr.rangeLen = map[ssa.Value]Term{}
 	fr.findLoops()
 	order := fr.rpo()
 	fr.blockIn[fn.Blocks[0]] = []edgeIn{{from: nil, cond: entryReach, st: entrySt}}
